@@ -300,9 +300,10 @@ def ref_for(draw, style, timestamps, m, name="ref"):
         vals.add(t)
     vals = sorted(v for v in vals if v >= 0)
     if draw(st.booleans()) or len(vals) < 2:
-        return {"type": "point", "name": name, "entries": [[v, "r"] for v in vals], "minT": 0.0,
+        return {"type": "point", "name": name, "entries": [[v, draw(st.sampled_from(["r", "r", ""]))] for v in vals], "minT": 0.0,
                 "maxT": max(vals + [1.0]), "style": style}
-    ents = [[vals[i], vals[i + 1], "r"] for i in range(0, len(vals) - 1, 2)]
+    # (a reference entry without a label is a reference entry: its timestamps count like any other's)
+    ents = [[vals[i], vals[i + 1], draw(st.sampled_from(["r", "r", ""]))] for i in range(0, len(vals) - 1, 2)]
     return {"type": "interval", "name": name, "entries": ents, "minT": 0.0, "maxT": max(vals + [1.0]), "style": style}
 
 
